@@ -200,6 +200,12 @@ def gen_cases(rng, tier):
                     evs = ([(t0 + ack // 2 + 1, "R")] if rel == 0 and ack > 2 else []) + [(t0 + ack, "A")]
                     c = P06._case("ta%d" % k, "inv", rel, 486, t0, evs, branch=br)
                     cases.append([c[0], "c04", "TIMED"] + c[2:]); k += 1
+    # the client side in time: a response with the transaction's branch and CSeq method reaches it whenever it arrives during the
+    # transaction's life - also while the caller is still inside the first send (the request is out, the flush has not returned)
+    P05 = importlib.import_module("props.c05")
+    for c in P05.gen_cases(rng.__class__(5), "quick"):
+        if c[0].startswith("lng-"):
+            cases.append([c[0], "c04", "CLIENT"] + c[2:])
     if tier == "thorough":
         # exhaustive pairs: one live server entry (request A), then message B, over the alphabet
         k = 0
@@ -218,15 +224,31 @@ def gen_cases(rng, tier):
 
 
 def model_case(case, impl):
-    if case[2] == "TIMED":
+    if case[2] in ("TIMED", "CLIENT"):
         return [case[0], "c04", ""]
     return case
 
 
 def accepts(case, impl, model):
-    if case[2] == "TIMED":
+    if case[2] in ("TIMED", "CLIENT"):
         return True
     return impl == model
+
+
+def _client_oracle(case, impl):
+    """'a response is delivered only to the client transaction that sent the request with the same top-Via branch and CSeq
+    method', at any time relative to the life of the transaction: the answer built from the request on the wire must be handed to
+    the transaction that sent it"""
+    if "PANIC" in impl:
+        return ["panic: " + impl[:300]]
+    arrs = [a.split(":") for a in case[5].split(",") if a]
+    got = re.findall(r"\bG@\d+:(\w)", impl.split("\t")[0])
+    want = ["P" if int(a[1]) < 200 else ("S" if int(a[1]) < 300 else "F") for a in arrs]
+    if got[:len(want)] != want:
+        return ["the response(s) %s carrying the branch and CSeq method of the %s client transaction arrived %s ms after the request went out "
+                "(the first send returned after %s ms) but the transaction was handed %r" % (
+                    "/".join(a[1] for a in arrs), "INVITE" if case[3] == "inv" else "non-INVITE", "/".join(a[0] for a in arrs), case[11] if len(case) > 11 else "0", got)]
+    return []
 
 
 def _timed_oracle(case, impl):
@@ -260,6 +282,8 @@ def _timed_oracle(case, impl):
 
 
 def oracle(case, impl):
+    if case[2] == "CLIENT":
+        return _client_oracle(case, impl)
     if case[2] == "TIMED":
         return _timed_oracle(case, impl)
     if "PANIC" in impl:
@@ -280,7 +304,7 @@ def oracle(case, impl):
 
 
 def nontrivial(case, impl):
-    if case[2] == "TIMED":
+    if case[2] in ("TIMED", "CLIENT"):
         return "|".join(case[3:8])
     obs = impl.split(";")
     evs = [e for e in case[2].split(",") if e]
@@ -293,8 +317,8 @@ def distribution(cases, impl):
     import collections
     h = collections.Counter()
     for c in cases:
-        if c[2] == "TIMED":
-            h["timed"] += 1
+        if c[2] in ("TIMED", "CLIENT"):
+            h["timed" if c[2] == "TIMED" else "client"] += 1
             continue
         o = impl.get(c[0], "")
         for x in o.split(";"):
@@ -329,7 +353,7 @@ def _valid(evs):
 
 
 def shrink_candidates(case):
-    if case[2] == "TIMED":
+    if case[2] in ("TIMED", "CLIENT"):
         return []
     evs = case[2].split(",")
     out = []
